@@ -82,6 +82,7 @@ type World struct {
 	Peers  []*Peer
 	Events *EventLog
 	base   int // goroutine baseline for Sync
+	base0  int // baseline at creation (before any persistent goroutine)
 }
 
 // New creates a local device (with its DeviceInformation entity) and an application event log.
@@ -92,6 +93,7 @@ func New() *World {
 		model.DeviceTypeTypeEnergyManagementSystem, model.NetworkManagementFeatureSetTypeSmart)
 	_ = spine.Events.Subscribe(w.Events)
 	w.base = runtime.NumGoroutine()
+	w.base0 = w.base
 	return w
 }
 
@@ -103,7 +105,14 @@ func (w *World) AdjustBase(n int) { w.base += n }
 
 // Sync waits until every goroutine the stack spawned (asynchronous event handlers, callbacks)
 // has finished, i.e. the goroutine count is back at the baseline. Returns false on timeout.
-func (w *World) Sync() bool { return WaitGoroutines(w.base, 10*time.Second) }
+func (w *World) Sync() bool {
+	if !WaitGoroutines(w.base, 10*time.Second) {
+		buf := make([]byte, 1<<16)
+		n := runtime.Stack(buf, true)
+		panic(fmt.Sprintf("harness: goroutines did not settle (have %d, baseline %d)\n%s", runtime.NumGoroutine(), w.base, buf[:n]))
+	}
+	return true
+}
 
 func WaitGoroutines(base int, max time.Duration) bool {
 	deadline := time.Now().Add(max)
@@ -130,6 +139,13 @@ func (w *World) AddLocalEntity(addr []uint, et model.EntityTypeType, hb time.Dur
 }
 
 // AddLocalFeature creates a feature with the entity's next id, adds the functions and attaches it.
+// Adding the heartbeat function starts a persistent goroutine, so the baseline is re-taken.
+func (w *World) AddLocalFeature(e api.EntityLocalInterface, spec FeatSpec) api.FeatureLocalInterface {
+	w.Sync()
+	defer w.Rebase()
+	return AddLocalFeature(e, spec)
+}
+
 func AddLocalFeature(e api.EntityLocalInterface, spec FeatSpec) api.FeatureLocalInterface {
 	f := spine.NewFeatureLocal(e.NextFeatureId(), e, spec.Type, spec.Role)
 	if spec.Desc != "" {
@@ -347,6 +363,7 @@ func (w *World) Teardown() {
 			}()
 		}
 	}
+	WaitGoroutines(w.base0, 2*time.Second)
 }
 
 // SubscribeCall builds a subscription request call cmd.
